@@ -32,7 +32,7 @@ def gen_call(ch, ended, netlistable, force=None):
             ts.append(t)
     single = len(ts) == 1 and ch.chance(1, 2)
     if kind == "netlist":
-        return ["netlist", ts, "spice", single]
+        return ["netlist", ts, ch.pick(["spice", "spice", "spectre", "xyce"], "fmt"), single]
     return [kind, ts, single]
 
 
